@@ -356,6 +356,8 @@ func (s *sys) Canon(i any) string {
 }
 
 var universes = map[string]universe{
+	// tiny alphabet for a deep history search without state de-duplication
+	"tiny": {prefixes: []string{"/a", "/a/b"}, faces: []uint64{1, 2}, costs: []uint64{1}, strats: []string{mcName}},
 	"small": {prefixes: []string{"/", "/a", "/a/b", "/a/b/c"}, faces: []uint64{1}, costs: []uint64{1, 2}, strats: []string{mcName}},
 	"full":  {prefixes: []string{"/", "/a", "/a/b", "/a/b/c", "/a/b/c/d", "/a/x", "/e"}, faces: []uint64{1, 2}, costs: []uint64{1, 2}, strats: []string{brName, mcName}},
 	"deep":  {prefixes: []string{"/", "/a", "/a/b", "/a/b/c", "/a/b/c/d", "/a/b/c/d/e", "/a/b/c/d/e/f", "/a/b/c/d/e/f/g", "/a/b/x", "/a/b/c/d/e/x"}, faces: []uint64{1}, costs: []uint64{1}, strats: []string{mcName}},
@@ -394,6 +396,7 @@ func main() {
 			}
 			c = append(c, explore.Config{Name: "audit(no dedup) small m=2", BuildName: "small m=2", MaxDepth: ad + 1, MaxDev: -1, NoDedup: true})
 			c = append(c, explore.Config{Name: "audit(no dedup) full m=2", BuildName: "full m=2", MaxDepth: ad - 1, MaxDev: -1, NoDedup: true})
+			c = append(c, explore.Config{Name: "history search (no dedup) tiny m=1", BuildName: "tiny m=1", MaxDepth: ad + 1, MaxDev: -1, NoDedup: true})
 			return c
 		},
 		Budget: func(th bool) time.Duration {
